@@ -129,7 +129,7 @@ def run_case(desc, ctx):
     comp = graphs.components(n, E)
     scale = sum(wf(a, b) for (a, b) in E) / max(1, len(E))
     for q in range(desc["queries"]):
-        start = rng.randrange(n)
+        start = 0 if rng.random() < 0.15 else rng.randrange(n)
         same = [v for v in range(n) if comp[v] == comp[start]]
         dref = graphs.dijkstra(n, adj, start)
         hops = graphs.bfs(n, hop, start)
